@@ -976,6 +976,10 @@ def _derives_from_request_bytes(p, upto: int, name: str, depth: int = 0) -> bool
 
 def check(ctx: Ctx, rep: Report):
     rep.rule("C03.R1", "the four Modbus request builders produce the reference frame layout", 4)
+    rep.rule("C03.R6", "the transport is written only by _send_request (which renews the Modbus/TCP transaction id)", 2)
+    from .proto import only_send_request_transmits as _shared_C03_R6, proto_classes as _pcs
+    for _ci in _pcs(ctx):
+        _shared_C03_R6(ctx, rep, "C03.R6", _ci)
     rep.rule("C03.R2", "every byte / hex field of a request is proven to fit (negative values in two's complement)", 20)
     rep.rule("C03.R3", "AA55 templates: length byte = bytes that follow; header and checksum over the same string", 16)
     rep.rule("C03.R4", "Modbus/TCP transaction id: non-zero, two bytes, changes on every transmission", 6)
